@@ -175,7 +175,76 @@ const EXTRA_LABELS: &[i64] = &[
 ];
 const EXTRA_TEXTS: &[&str] = &["", "a", "b", "aa", "ab", "aaaaaaaaaaaaaaaaaaaaaaaa", "aaaaaaaaaaaaaaaaaaaaaaa", "é", "zz"];
 
+/// Keys assembled through the public fields whose extras name a *vacant* typed parameter (kid, alg,
+/// key_ops, Base IV given under `params` with values of the right kind, of the wrong kind, or half
+/// right): canonicalising sorts the extras and changes nothing else — no field, no pair — under
+/// either ordering, twice as well as once, and what encoded before still encodes, in order.
+fn typed_label_in_params_case(g: &mut Gen, ctx: &mut Ctx) -> CaseResult {
+    use coset::cbor::value::Value;
+    let lenfirst = g.bool();
+    let mut k = CoseKey { kty: coset::KeyType::Assigned(coset::iana::KeyType::OKP), ..Default::default() };
+    let n = 1 + g.below(3);
+    for _ in 0..n {
+        let l = 2 + g.below(4) as i64;
+        if k.params.iter().any(|(x, _)| *x == Label::Int(l)) {
+            continue;
+        }
+        let v = match (l, g.below(4)) {
+            (4, 0) => Value::Array(vec![Value::from(1), Value::from(2)]),
+            (4, 1) => Value::Array(vec![Value::from(1), Value::from(99)]),
+            (4, 2) => Value::Array(vec![Value::from(1), Value::from(1)]),
+            (4, _) => Value::Array(vec![Value::from(2), Value::Float(2.5), Value::Text("x".into())]),
+            (3, 0) => Value::from(-7),
+            (3, 1) => Value::from(99),
+            (3, _) => Value::Array(vec![Value::from(-7)]),
+            (_, 0) => Value::Bytes(g.nonempty_bytes()),
+            (_, 1) => Value::Bytes(vec![]),
+            (_, _) => Value::Text("not bytes".into()),
+        };
+        k.params.push((Label::Int(l), v));
+    }
+    for _ in 0..g.below(3) {
+        let l = Label::Int(*g.pick(&[-1i64, -2, -25, 24, 256, 70000]));
+        if !k.params.iter().any(|(x, _)| *x == l) {
+            let at = g.below(k.params.len() + 1);
+            k.params.insert(at, (l, Value::from(g.range_i64(0, 9))));
+        }
+    }
+    ctx.class("key:typed-label-among-extras");
+    ctx.nontrivial(hash_str(&format!("{:?}{}", k, lenfirst)));
+    ctx.sample_with(|| format!("canonicalize key with vacant typed labels among its extras: {}", short(&k, 300)));
+    let before_enc = k.clone().to_vec();
+    let mut c = k.clone();
+    c.canonicalize(ordering(lenfirst));
+    ensure!(c.kty == k.kty && c.key_id == k.key_id && c.alg == k.alg && c.key_ops == k.key_ops && c.base_iv == k.base_iv, "canonicalize changed a typed field of the key\n  before: {}\n  after:  {}", short(&k, 500), short(&c, 500));
+    let key_of = |p: &(Label, Value)| format!("{:?}", p);
+    let mut a: Vec<String> = k.params.iter().map(key_of).collect();
+    let mut b: Vec<String> = c.params.iter().map(key_of).collect();
+    a.sort();
+    b.sort();
+    ensure!(a == b, "canonicalize changed the extra parameters of the key\n  before: {}\n  after:  {}", short(&k, 500), short(&c, 500));
+    let mut again = c.clone();
+    again.canonicalize(ordering(lenfirst));
+    ensure!(same(&again, &c), "canonicalising twice differs from canonicalising once");
+    match (before_enc, c.clone().to_vec()) {
+        (Ok(_), Err(e)) => fail!("a key that encodes no longer encodes once canonicalised: {:?}\n  key: {}", e, short(&c, 500)),
+        (_, Ok(out)) => {
+            let read = read_strict(&out).map_err(|e| format!("canonicalised key encoding not strict ({:?})", e))?;
+            let keys: Vec<Vec<u8>> = read.as_map().ok_or("key not a map")?.iter().map(|(k, _)| encode(k)).collect();
+            for w in keys.windows(2) {
+                let o = if lenfirst { cmp_len_first(&w[0], &w[1]) } else { cmp_lex(&w[0], &w[1]) };
+                ensure!(o == std::cmp::Ordering::Less, "after canonicalize the encoded map keys are not strictly ascending: {} then {}\n  output: {}", hex_trunc(&w[0], 20), hex_trunc(&w[1], 20), diag(&read));
+            }
+        }
+        (Err(_), Err(_)) => {}
+    }
+    Ok(())
+}
+
 fn case(g: &mut Gen, ctx: &mut Ctx) -> CaseResult {
+    if g.ratio(1, 15) {
+        return typed_label_in_params_case(g, ctx);
+    }
     let lenfirst = g.bool();
     let by_decoding = g.ratio(1, 3);
     let key = if by_decoding {
